@@ -640,6 +640,9 @@ def _scale_axis(e, cellname):
         # v.reshape(3,1) / v.reshape(-1,1) / v[:, None] / v[:, np.newaxis]
         if isinstance(x, ast.Call) and call_name(x) == "reshape":
             args = x.args[0].elts if len(x.args) == 1 and isinstance(x.args[0], ast.Tuple) else x.args
+            if isinstance(x.func, ast.Attribute) and isinstance(x.func.value, ast.Name) and x.func.value.id in ("np", "numpy") and len(x.args) == 2:
+                # the function form np.reshape(v, shape)
+                args = x.args[1].elts if isinstance(x.args[1], ast.Tuple) else [x.args[1]]
             vals = [const_value(a) for a in args]
             if vals[-2:] in ([3, 1], [-1, 1]):
                 return True
@@ -735,16 +738,83 @@ def C_axis_replicate(repo, clause):
     rs = [c for c in calls_in(fn) if call_name(c) == "reshape" and mg and any(x is mg[0] for x in ast.walk(c))]
     ok = len(rs) == 1 and [const_value(a) for a in rs[0].args] == [-1, 3] and ".T.reshape" in ast.unparse(rs[0]).replace(" ", "")
     obs.append(Ob("Caxis", clause, fn, rs[0] if rs else fn.node, ok, "multiplier grid is flattened to rows of three integers (one per lattice axis)", slot="multipliers-shape"))
-    flt = [n for n in fn.own_nodes() if isinstance(n, ast.Assign) and isinstance(n.value, ast.Subscript) and isinstance(n.value.slice, ast.Call)
-           and call_name(n.value.slice) == "any"]
-    ok = False
-    if len(flt) == 1:
-
-        c = flt[0].value.slice
-        e = eq_const(c.args[0]) if c.args and isinstance(c.args[0], ast.Compare) else None
-        ax = kwarg(c, "axis")
-        ok = e is not None and not e[2] and e[1] == 0 and ast.unparse(e[0]) == ast.unparse(flt[0].value.value) and const_value(ax) == 1
-    obs.append(Ob("Caxis", clause, fn, flt[0] if flt else fn.node, ok, "exactly the all-zero multiplier (already present as the copy) is removed", slot="zero-image-removed"))
+    # the all-zero multiplier (the copy itself) is removed exactly once: either the rows are selected by "any component non-zero" before the loop,
+    # or the loop skips the row whose components are all zero
+    def _rowwise(e, M, want):
+        """e is the row-wise predicate `any component of M non-zero` (want='any') / `all components zero` (want='all0') -> True; the opposite -> False; else None"""
+        neg = False
+        while isinstance(e, ast.UnaryOp) and isinstance(e.op, (ast.Invert, ast.Not)):
+            e, neg = e.operand, not neg
+        if isinstance(e, ast.Call) and call_name(e) in ("flatnonzero",) and len(e.args) == 1 and not neg:
+            return _rowwise(e.args[0], M, want)
+        if isinstance(e, ast.Subscript) and const_value(e.slice) == 0 and isinstance(e.value, ast.Call) and call_name(e.value) in ("where", "nonzero") and len(e.value.args) == 1 and not neg:
+            return _rowwise(e.value.args[0], M, want)
+        if not (isinstance(e, ast.Call) and call_name(e) in ("any", "all")):
+            return None
+        q = call_name(e)
+        if isinstance(e.func, ast.Attribute) and not (isinstance(e.func.value, ast.Name) and e.func.value.id in ("np", "numpy")):
+            arg, rest = e.func.value, e.args
+        else:
+            if not e.args:
+                return None
+            arg, rest = e.args[0], e.args[1:]
+        ax = kwarg(e, "axis") if kwarg(e, "axis") is not None else (rest[0] if rest else None)
+        if M is not None and const_value(ax) not in (1, -1):
+            return None
+        if M is None and ax is not None:
+            return None
+        # the tested array: M, M != 0, M == 0
+        base, rel = arg, "truthy"
+        ec = eq_const(arg) if isinstance(arg, ast.Compare) else None
+        if ec is not None and ec[1] == 0:
+            base, rel = ec[0], ("eq0" if ec[2] else "ne0")
+        elif isinstance(arg, ast.Compare):
+            return None
+        if M is not None and ast.unparse(base) != M:
+            return None
+        if M is None and not isinstance(base, ast.Name):
+            return None
+        kind = None
+        if q == "any" and rel in ("truthy", "ne0"):
+            kind = "any"          # some component non-zero
+        elif q == "all" and rel == "eq0":
+            kind = "all0"         # every component zero
+        elif q == "all" and rel in ("truthy", "ne0"):
+            kind = "allnz"
+        elif q == "any" and rel == "eq0":
+            kind = "any0"
+        if kind in ("allnz", "any0"):
+            return False          # drops / keeps the wrong rows (every image with a zero component)
+        if neg:
+            kind = "all0" if kind == "any" else "any"
+        return kind == want
+    img_loops = [l for l in fn.own_nodes() if isinstance(l, ast.For) and any(isinstance(c_, ast.Call) and isinstance(c_.func, ast.Attribute) and c_.func.attr == "translate" for c_ in ast.walk(l))]
+    verdict, where_ = None, None
+    if len(img_loops) == 1:
+        lp_ = img_loops[0]
+        it_ = expand(fn, lp_.iter)
+        if isinstance(it_, ast.Subscript):
+            verdict, where_ = _rowwise(expand(fn, it_.slice), ast.unparse(it_.value), "any"), lp_
+            if verdict is None:
+                # the selection was stored back into the same name: ucmults = ucmults[mask]
+                pass
+        if verdict is None and isinstance(lp_.iter, ast.Name):
+            sel = [n for n in fn.own_nodes() if isinstance(n, ast.Assign) and len(n.targets) == 1 and isinstance(n.targets[0], ast.Name) and n.targets[0].id == lp_.iter.id
+                   and isinstance(n.value, ast.Subscript) and isinstance(n.value.value, ast.Name) and fn.cfg.dominates(n, lp_)]
+            if len(sel) == 1:
+                verdict, where_ = _rowwise(sel[0].value.slice, sel[0].value.value.id, "any"), sel[0]
+                if verdict is None:
+                    verdict = _rowwise(expand(fn, sel[0].value.slice, stop_names=[sel[0].value.value.id]), sel[0].value.value.id, "any")
+        if verdict is None and isinstance(lp_.target, ast.Name) and lp_.body and isinstance(lp_.body[0], ast.If) and not lp_.body[0].orelse \
+                and len(lp_.body[0].body) == 1 and isinstance(lp_.body[0].body[0], ast.Continue):
+            t_ = lp_.body[0].test
+            r_ = _rowwise(t_, None, "all0")
+            if r_ is not None and any(isinstance(x, ast.Name) and x.id == lp_.target.id for x in ast.walk(t_)):
+                verdict, where_ = r_, lp_.body[0]
+    obs.append(Ob("Caxis", clause, fn, where_ if where_ is not None else fn.node, verdict is True,
+                  "exactly the all-zero multiplier (already present as the copy) is removed%s" % (
+                      "" if verdict is not False else ": the test drops every image that has a ZERO component on some axis (or keeps the zero image)"),
+                  slot="zero-image-removed", positive=verdict is False, undecided=verdict is None))
     # the accumulator starts as a copy of self; every image is a copy of self
     cps = [n for n in fn.own_nodes() if isinstance(n, ast.Assign) and isinstance(n.value, ast.Call) and call_name(n.value) == "copy" and ast.unparse(n.value.func.value) == "self"]
     obs.append(Ob("Caxis", clause, fn, cps[0] if cps else fn.node, len(cps) == 2, "accumulator and each image start as copies of self (%d)" % len(cps), slot="copies"))
